@@ -23,10 +23,11 @@ import vlib
 MANIFEST = {
     "property": "C03",
     "part": "connection level (real sockets, binary + text protocol objects)",
-    "theorems": ["C03_net_no_reply_reads_recycled_command", "C03_net_unlock_first_recycles_in_flight_command_refuted"],
+    "theorems": "coq/Properties/C03_net.v",
     "model": ["coq/ReplyNet/Pool.v"],
-    "harness": ["harness/replynet"],
+    "harness": "harness/replynet",
 }
+THEOREMS = ["C03_net_no_reply_reads_recycled_command", "C03_net_unlock_first_recycles_in_flight_command_refuted"]
 
 PORT_LO, PORT_HI = 15400, 15479
 DET_PORT_LO, DET_PORT_HI = 15480, 15499
@@ -209,7 +210,7 @@ def run(ctx):
     if have_coq:
         ok, log = ctx.coq(["Properties/C03_net.vo"])
         proved = set(ctx.assumption_report.keys())
-        for th in MANIFEST["theorems"]:
+        for th in THEOREMS:
             ctx.obligation(th, ok and th in proved, "" if ok else getattr(ctx, "coq_failure", "")[:600])
         if tier == "thorough" and ok:
             cok, cout = ctx.coqchk(["Slock.Properties.C03_net"])
@@ -337,6 +338,10 @@ def run(ctx):
         "samples": [{k: r[k] for k in ("id", "requests", "frames", "text_cmds", "expried_notices", "grants_after_wait_ge_200us",
                                        "server_locked_count", "implied_locked", "server_wait_count", "sem_acquired", "sem_released",
                                        "violation_sigs", "wall_ms") if k in r} for r in results[:8]],
+        "scenarios_with_anomalies": [{k: r[k] for k in ("id", "params", "requests", "client_gave_up", "replies_later_than_patience",
+                                                         "max_reply_latency_ms", "violation_sigs", "server_locked_count", "implied_locked") if k in r}
+                                     for r in results if r.get("client_gave_up") or r.get("violations") or r.get("replies_later_than_patience")][:40],
+        "max_reply_latency_ms": max([r.get("max_reply_latency_ms") or 0 for r in results] or [0]),
         "harness_fatal": fatal,
         "wall_s_parts": {"total": round(time.time() - t_start, 1)},
     }
